@@ -17,7 +17,8 @@ def case_list(quick, max_chain):
         for sk, kk in (("call", "call"), ("method", "method")):
             for placement in ("top", "func"):
                 cases.append((chain, sk, kk, placement, "two"))
-        for sk, kk in (("helper-early", "call"), ("helper-twice", "call"), ("call", "kwcallee"), ("helper-twice", "kwcallee")):
+        for sk, kk in (("helper-early", "call"), ("helper-twice", "call"), ("call", "kwcallee"), ("helper-twice", "kwcallee"),
+                       ("call", "kwcallee-cut")):
             for placement in ("top", "func"):
                 cases.append((chain, sk, kk, placement, "one"))
     return cases
@@ -38,7 +39,7 @@ def run_program(case, source_rules=None, sink_rules=None):
     res["truth"] = truth
     res["other_hits"] = sorted(h for h in hits if h != (one["S"], one["K"]))
     res["S"], res["K"] = prog["S"], prog["K"]
-    res["kind"] = prog["kind"] if kk != "call-arg1" else "cut"
+    res["kind"] = prog["kind"] if kk not in ("call-arg1", "kwcallee-cut") else "cut"
     res["feats"] = sorted(prog["feats"])
     res["source"] = prog["main"]
     res.pop("_lian", None)
